@@ -45,8 +45,10 @@ class HavocScheduler(BaseScheduler):
         placements = []
         decided = []
         pools = list(worker_pools.worker_pools)
+        base_cfg = cfg
         for task in tasks:
             tn = task.name
+            cfg = dict(base_cfg, **base_cfg.get("per_task", {}).get(tn, {}))
             if task.state not in (TaskState.VIRTUAL, TaskState.RELEASED, TaskState.SCHEDULED):
                 continue
             opts = []
